@@ -124,6 +124,23 @@ def tags(prog):
                         t.add("shadow")
                     if n:
                         seen.append(n)
+            if op == "group":
+                # a key column referenced inside the group's own pipeline
+                keys = {b_["name"] for b_ in s["by"] if b_.get("t") == "col"}
+                refs = set()
+                def cols(e):
+                    if isinstance(e, dict):
+                        if e.get("t") == "col":
+                            refs.add(e.get("name"))
+                        for v_ in e.values():
+                            cols(v_)
+                    elif isinstance(e, list):
+                        for v_ in e:
+                            cols(v_)
+                for x in s["pipe"]:
+                    cols({k_: v_ for k_, v_ in x.items() if k_ not in ("op", "at")})
+                if keys & refs:
+                    t.add("group-key-in-pipe")
             if op in ("group", "window"):
                 walk(s["pipe"], names, depth + 1)
             if op == "append" and len(s["with"]) == 1 and s["with"][0]["op"] == "from":
